@@ -13,15 +13,19 @@
 //!                       incl   literal comes from a `#define` in an included file
 //!                       def    literal comes from a define passed to `compile`
 //!                       paste  integer literal assembled by `##` (token lives in `<scratch space>`)
-//!           C10.fmt \t <target> \t <kind> \t <bits hex> \t <Display text of the value>
+//!           C10.fmt \t <target> \t <kind> \t <bits hex> \t <Display text of the value> [\t <Display of the value as f64>]
 //!             `rssl_formatter::format` on an AST holding exactly that literal value (every bit pattern is
-//!             reachable, also the ones no source text is generated for)
+//!             reachable, also the ones no source text is generated for); the last field is present for the
+//!             single-precision kinds (Float16, Float32): `format_literal` prints those digits when the digits of the
+//!             single, read through the double, are not the value (`f32_digits_round_twice`, fix 265a080)
 //! observe : emit: the printed literal (or `!error ...` / `!panic ...`);  fmt: the printed literal
 //! oracle  : emit: the printed text, read by the reference grammar of this harness (exact big-integer arithmetic),
 //!             has the kind, sign and value of the source literal (MSL: `INFINITY`, `FLT_MAX` stand for their values)
 //!           fmt : the printed text is lexed by the real lexer: it must be `[-] <one numeric token>` of the same
 //!             kind and the same bits; Rust's `Display` digits must be a decimal whose nearest value is the
-//!             value printed (the one assumption `emit_value_exact` makes, checked bit for bit)
+//!             value printed, and for a single the `Display` digits of the value as a double must be a decimal whose
+//!             nearest double is exactly the single's value (the assumptions `emit_value_exact` makes, checked bit
+//!             for bit)
 use super::*;
 use rssl::ast;
 use rssl::text::Located;
@@ -447,6 +451,39 @@ pub fn display_of(kind: &str, bits: u64) -> String {
     }
 }
 
+/// Rust's `Display` of a single's value as a double (`*v as f64`), `None` for the other kinds
+pub fn display64_of(kind: &str, bits: u64) -> Option<String> {
+    match kind {
+        "Float16" | "Float32" => Some(format!("{}", f32::from_bits(bits as u32) as f64)),
+        _ => None,
+    }
+}
+
+/// the double with exactly the value of a finite non-negative single: by exact rounding of `m * 2^q` (which is
+/// representable, so nothing is rounded), not by Rust's cast
+pub fn ref_widen32(mag: u32) -> u64 {
+    let (m, q) = F32.decode(mag as u64);
+    let one = Big::from_u64(1);
+    if q >= 0 {
+        nearest_bits(&Big::from_u64(m).shl(q as u32), &one, F64)
+    } else {
+        nearest_bits(&Big::from_u64(m), &one.shl((-q) as u32), F64)
+    }
+}
+
+/// `digits[.digits]` -> (all digits, -number of fraction digits, has a point)
+fn plain_decimal(d: &str) -> Option<(Vec<u8>, i64, bool)> {
+    let (whole, frac) = d.split_once('.').unwrap_or((d, ""));
+    let plain = !whole.is_empty()
+        && whole.bytes().all(|c| c.is_ascii_digit())
+        && frac.bytes().all(|c| c.is_ascii_digit())
+        && (d.contains('.') == !frac.is_empty());
+    if !plain {
+        return None;
+    }
+    Some((whole.bytes().chain(frac.bytes()).collect(), -(frac.len() as i64), d.contains('.')))
+}
+
 thread_local! {
     static TEMPLATE: std::cell::RefCell<Option<ast::Module>> = const { std::cell::RefCell::new(None) };
 }
@@ -494,7 +531,7 @@ fn token_value(t: &Token) -> Option<(&'static str, u64)> {
 }
 
 /// `C10.fmt`
-pub fn run_fmt(tgt_s: &str, kind: &str, bits_s: &str, disp: &str, hist: &mut Hist) -> (String, String) {
+pub fn run_fmt(tgt_s: &str, kind: &str, bits_s: &str, disp: &str, disp64: Option<&str>, hist: &mut Hist) -> (String, String) {
     let (Some(tgt), Ok(bits)) = (Tgt::parse(tgt_s), u64::from_str_radix(bits_s, 16)) else {
         return (String::new(), "SKIP:bad request".into());
     };
@@ -503,6 +540,9 @@ pub fn run_fmt(tgt_s: &str, kind: &str, bits_s: &str, disp: &str, hist: &mut His
     };
     if display_of(kind, bits) != disp {
         return (String::new(), "SKIP:the Display field is not the Display of the value".into());
+    }
+    if display64_of(kind, bits).as_deref() != disp64 {
+        return (String::new(), "SKIP:the last field is not the Display of the value as a double (single-precision kinds only)".into());
     }
     let is_float = kind.starts_with("Float");
     let wide = kind == "Float" || kind == "Float64";
@@ -543,27 +583,56 @@ pub fn run_fmt(tgt_s: &str, kind: &str, bits_s: &str, disp: &str, hist: &mut His
     // (1) Display is a plain decimal whose nearest value (rounded the way its own type rounds) is the value
     if is_float && mag != if wide { F64.inf() } else { F32.inf() } {
         let d = disp.strip_prefix('-').unwrap_or(disp);
-        let (whole, frac) = d.split_once('.').unwrap_or((d, ""));
-        let plain = !whole.is_empty()
-            && whole.bytes().all(|c| c.is_ascii_digit())
-            && frac.bytes().all(|c| c.is_ascii_digit())
-            && (d.contains('.') == !frac.is_empty());
-        if !plain {
-            fails.push(format!("Display {} is not digits[.digits]", disp));
-        } else {
-            let digits: Vec<u8> = whole.bytes().chain(frac.bytes()).collect();
-            let e = -(frac.len() as i64);
-            let got = if wide { ref_nearest64(&digits, e) } else { ref_nearest32_direct(&digits, e) as u64 };
-            if got != mag {
-                fails.push(format!("Display {} does not round to the value {:x} (gives {:x})", disp, mag, got));
+        match plain_decimal(d) {
+            None => fails.push(format!("Display {} is not digits[.digits]", disp)),
+            Some((digits, e, point)) => {
+                let got = if wide { ref_nearest64(&digits, e) } else { ref_nearest32_direct(&digits, e) as u64 };
+                if got != mag {
+                    fails.push(format!("Display {} does not round to the value {:x} (gives {:x})", disp, mag, got));
+                }
+                if disp.starts_with('-') != sign {
+                    fails.push(format!("Display {} has the wrong sign", disp));
+                }
+                // a `.` exactly when the value is not a whole number (the arms of format_literal rely on it)
+                let whole = if wide { f64::from_bits(mag).fract() == 0.0 } else { f32::from_bits(mag as u32).fract() == 0.0 };
+                if whole == point {
+                    fails.push(format!("Display {} of a {} value", disp, if whole { "whole" } else { "fractional" }));
+                }
+                // a whole single above 2^63 is printed `<Display>.0` without the test of `f32_digits_round_twice`: its
+                // digits must read back through the double (hypothesis `hrt` of emit_value_exact for whole singles)
+                if !wide && whole && mag > 0x5f00_0000 {
+                    let back = ref_narrow32(ref_nearest64(&digits, e)) as u64;
+                    if back != mag {
+                        fails.push(format!("Display {} of the whole single {:x} reads back through the double as {:x}", disp, mag, back));
+                    }
+                }
             }
-            if disp.starts_with('-') != sign {
-                fails.push(format!("Display {} has the wrong sign", disp));
+        }
+        // (1b) a single: Display of the same value as a double is a plain decimal, with a `.` exactly when the value is not
+        // whole, whose nearest double is exactly the single's value (hypothesis `h64` of emit_value_exact)
+        if let Some(d64) = disp64 {
+            let wide_bits = ref_widen32(mag as u32);
+            if (f32::from_bits(mag as u32) as f64).to_bits() != wide_bits {
+                fails.push(format!("the single {:x} as f64 is {:x}, its exact value is {:x}", mag, (f32::from_bits(mag as u32) as f64).to_bits(), wide_bits));
             }
-            // a `.` exactly when the value is not a whole number (the arms of format_literal rely on it)
-            let whole = if wide { f64::from_bits(mag).fract() == 0.0 } else { f32::from_bits(mag as u32).fract() == 0.0 };
-            if whole == d.contains('.') {
-                fails.push(format!("Display {} of a {} value", disp, if whole { "whole" } else { "fractional" }));
+            if ref_narrow32(wide_bits) as u64 != mag {
+                fails.push(format!("the single {:x} widened to {:x} narrows to {:x}", mag, wide_bits, ref_narrow32(wide_bits)));
+            }
+            let d = d64.strip_prefix('-').unwrap_or(d64);
+            match plain_decimal(d) {
+                None => fails.push(format!("Display {} (as a double) is not digits[.digits]", d64)),
+                Some((digits, e, point)) => {
+                    let got = ref_nearest64(&digits, e);
+                    if got != wide_bits {
+                        fails.push(format!("Display {} (as a double) does not round to the double {:x} of the single {:x} (gives {:x})", d64, wide_bits, mag, got));
+                    }
+                    if d64.starts_with('-') != sign {
+                        fails.push(format!("Display {} (as a double) has the wrong sign", d64));
+                    }
+                    if (f32::from_bits(mag as u32).fract() == 0.0) == point {
+                        fails.push(format!("Display {} (as a double) has a point for a whole value or none for a fractional one", d64));
+                    }
+                }
             }
         }
     }
@@ -619,9 +688,11 @@ pub fn run_fmt(tgt_s: &str, kind: &str, bits_s: &str, disp: &str, hist: &mut His
     (printed, orc)
 }
 
-/// `C10.sweep32 \t <stride> \t <offset>`: every finite non-negative single `offset + k * stride`: its `Display` digits,
-/// read the way the lexer reads a literal (`str::parse::<f64>` — `calculate_float64_from_parts` — then `as f32`), must
-/// be the value again. Observation: the bit patterns for which they are not.
+/// `C10.sweep32 \t <stride> \t <offset>`: every finite non-negative single `offset + k * stride`: its `Display` digits
+/// are read the way the lexer reads a literal (`str::parse::<f64>` — `calculate_float64_from_parts` — then `as f32`).
+/// Observation: the bit patterns for which that is not the value again (in the whole range: `15ae43fd` alone). Oracle:
+/// the real formatter prints each of those with a text that the real lexer reads back as the value (every other single
+/// is printed with its `Display` digits — `literal_tables_as_modelled`, `C10.fmt` — which were just read back).
 pub fn run_sweep32(stride: u32, offset: u32) -> (String, String) {
     if stride == 0 {
         return (String::new(), "SKIP:bad request".into());
@@ -658,11 +729,25 @@ pub fn run_sweep32(stride: u32, offset: u32) -> (String, String) {
     });
     bad.sort();
     let obs = bad.iter().map(|(b, _, _)| format!("{:08x}", b)).collect::<Vec<_>>().join(",");
-    let orc = match bad.first() {
-        None => "ok".to_string(),
-        Some((b, s, back)) => format!("FAIL:fmt Float32 {:x} printed as {}f lexes as {:x}", b, s, back),
-    };
-    (obs, orc)
+    // the singles whose Display digits round twice are the ones `format_literal` must not print with those digits: the
+    // real formatter on exactly these values (both single-precision kinds, both targets, both signs); the printed text,
+    // lexed by the real lexer, must be the value again (`run_fmt`)
+    let mut hist = Hist::default();
+    for (b, _, _) in &bad {
+        for kind in ["Float32", "Float16"] {
+            for tgt in ["dx", "msl"] {
+                for bits in [*b as u64, *b as u64 | 1 << 31] {
+                    let disp = display_of(kind, bits);
+                    let d64 = display64_of(kind, bits);
+                    let (_, orc) = run_fmt(tgt, kind, &format!("{:x}", bits), &disp, d64.as_deref(), &mut hist);
+                    if orc != "ok" {
+                        return (obs, orc);
+                    }
+                }
+            }
+        }
+    }
+    (obs, "ok".to_string())
 }
 
 // ------------------------------------------------------------------------------------------------
@@ -829,8 +914,10 @@ pub fn generate(args: &Args, rng: &mut Rng, out: &mut Out, hist: &mut Hist) -> (
             continue;
         }
         let disp = display_of(kind, bits);
-        let (obs, orc) = run_fmt(tgt.name(), kind, &format!("{:x}", bits), &disp, hist);
-        out.case(&format!("C10.fmt\t{}\t{}\t{:x}\t{}", tgt.name(), kind, bits, disp), &obs, &orc);
+        let d64 = display64_of(kind, bits);
+        let (obs, orc) = run_fmt(tgt.name(), kind, &format!("{:x}", bits), &disp, d64.as_deref(), hist);
+        let tail = d64.map(|d| format!("\t{}", d)).unwrap_or_default();
+        out.case(&format!("C10.fmt\t{}\t{}\t{:x}\t{}{}", tgt.name(), kind, bits, disp, tail), &obs, &orc);
     }
     // (5b) all singles (thorough) or every 61st (quick): Display digits read back through the double
     let (stride, offset) = if args.thorough() { (1u32, 0u32) } else { (61, rng.below(61) as u32) };
